@@ -91,6 +91,30 @@ CLAIMED.update({
 })
 CLAIMED["C14"]["text"] += " z3 decides that tables generated under other hash seeds equal those under seed 0 (C14.hash)."
 
+PIPE = "CrossHair symbolic execution (z3) of the whole real pipeline (pre-processor, PLY lexer, LALR driver, semantic actions, output) on statements assembled from catalogues by symbolic indices, one process per structural slice; reachability twins; public-API replay"
+CLAIMED.update({
+ "C07": dict(
+   technique=PIPE + "; symbolic literal / numeral text at action level with uninterpreted int(); z3 regex inclusion for the literal token rules",
+   text="Bounded symbolic checking: 22 catalogued literals (keywords, ';', '--', '#', '=' with blanks, '%', '.', empty) x 6 literal positions (DEFAULT, column and table COMMENT, ENUM value, CHECK IN list, LOCATION) and 9 numerals (leading zeros, 2**63) through the whole pipeline come back verbatim / as the integer; the real p_default + p_defcolumn on any quoted text up to 3 [5] characters and any digit string up to 5 [8] digits (int uninterpreted); z3 decides that every quoted printable literal is one STRING token and every numeral one ID token.",
+   note="Known finding (excluded class, witness replayed every run): literals containing ( ) ', ' '=' or /* */ are altered by the pre-processor. Outside: non-ASCII text, other literal positions.",
+   design="3/C07"),
+ "C09": dict(
+   technique=PIPE + "; lexer case lemma in the type position",
+   text="Bounded symbolic checking: 24 catalogued types (sizes (n) (p,s) (max) (n CHAR) (*,s), [] suffixes, two-word types, <...> types nested to depth 2 with and without blanks after inner commas) x 5 following option sets x 3 column positions through the whole pipeline: one type string (verbatim; <...> types blank-insensitively) with balanced brackets, the declared size, options kept, neighbours exactly as next to a plain type.",
+   note="Known finding (excluded class): a first type word containing both '<' and '>' (ARRAY<STRING>) loses the table. Outside: types outside the catalogue, depth > 2.",
+   design="3/C09"),
+ "C11": dict(
+   technique=PIPE + "; lexer keyword lemma after the column list",
+   text="Bounded symbolic checking: a table followed by two compatible clauses of one dialect (33 catalogued clauses of 10 dialects, first clause per process, second symbolic, both orders) through the whole pipeline in the default mode: both keys with the catalogued values, everything else equal to the clause-free table; each clause alone in its owning mode: documented keys at top level, common fields unchanged; the after-columns keyword table in any case style.",
+   note="Trusted: catalog/clauses.json frozen from the pinned commit (reviewed against README/tests). Known finding: ORGANIZATION INDEX after TABLESPACE/STORAGE. Outside: cross-dialect combinations, same key twice.",
+   design="3/C11"),
+ "C18": dict(
+   technique=PIPE + "; lexer lemmas after CREATE and after a dot",
+   text="Bounded symbolic checking: 19 catalogued CREATE TYPE / DOMAIN / SCHEMA / DATABASE / TABLESPACE statements, two per script (first per process, second symbolic) in 4 contexts (alone, after a table, between two tables, before a table; the tables use such types as column types) through the whole pipeline: exactly the catalogued entity per statement, in order, tables unchanged.",
+   note="Trusted: catalog/entities.json frozen from the pinned commit (reviewed). Outside: CREATE DOMAIN with an unparenthesised base type, CREATE DATABASE IF NOT EXISTS (yield nothing at the pinned commit), property lists.",
+   design="3/C18"),
+})
+
 NA_REASON = {
  "C15": "concurrency and PLY process-global aliasing: thread schedules and object-identity histories are not data the available solver engines (CrossHair single-threaded per-path re-execution, z3 over tables) can quantify over; see DESIGN.md section 4",
 }
